@@ -50,6 +50,13 @@ def rule(F, rep, rid):
                 rep.ob(R, "%s|digit@%s" % (q, fn.body.span(st["sp"]).rsplit(":", 2)[-2]), True)
                 continue
             base = q.split("::{closure")[0]
+            if F.is_new_fn(base):
+                # a helper that did not exist on the reference tree: the cast belongs to the functions it was extracted from
+                from . import cg
+                owners = sorted(cg.known_owners(F, base))
+                if owners and all(o in CLAMPS or any(o.startswith(c) for c in CONVERTERS) for o in owners):
+                    rep.ob(R, "%s|clamp-in-helper" % q, True, {"fn": q, "extracted_from": owners})
+                    continue
             if base in CLAMPS:
                 counts[base] = counts.get(base, 0) + 1
                 ok = counts[base] <= CLAMPS[base][0]
